@@ -336,6 +336,12 @@ int main (int argc, char *argv[]) {
         write_data(zck, data + start, in_size - (start + matched));
     }
 
+    if(in_size < 0) {
+        LOG_ERROR("Error reading %s", arguments.args[0]);
+        perror("");
+        exit(1);
+    }
+
     close(in_fd);
 
     if(!zck_close(zck)) {
